@@ -521,6 +521,10 @@ func trimWhitespace(t *Tree, s string) string {
 		}
 
 		if len(str) == 0 {
+			// An empty (or all-blank) line still ends in its line-break
+			if i != len(lines)-1 {
+				trimmed += lineBreaks[0]
+			}
 			continue
 		}
 
